@@ -180,14 +180,15 @@ Definition judge_step (s : fstate) (name : string) (a data fds : list N) (region
                 else
                   let good := reply_hdr_ok (os_code sp) sb (Some 8) && match sfds with [] => true | _ => false end in
                   if is_ok res then
-                    ((if negb good then 6 else if u sb 12 8 =? 0 then 0 else 3), s1)
+                    (* a failure status taken for success: misreported (C03) and a fabricated success (C06) *)
+                    ((if negb good then 6 else if u sb 12 8 =? 0 then 0 else 36), s1)
                   else ((if good && (u sb 12 8 =? 0) then 3 else 0), s1)
             | RU64 | RCheckState =>
                 let good := reply_hdr_ok (os_code sp) sb (Some 8) && match sfds with [] => true | _ => false end in
                 let v := u sb 12 8 in
                 if is_ok res then
                   if negb good then (6, s1)
-                  else if match os_reply sp with RCheckState => negb (v =? 0) | _ => false end then (3, s1)
+                  else if match os_reply sp with RCheckState => negb (v =? 0) | _ => false end then (36, s1)
                   else
                     let s2 :=
                       if String.eqb name "get_features" then
@@ -317,6 +318,7 @@ Definition fe_spec (args : list val) : val :=
       else if v =? 3 then VS "false:C03"
       else if v =? 6 then VS "false:C06"
       else if v =? 68 then VS "false:C06,C08"
+      else if v =? 36 then VS "false:C03,C06"
       else if v =? 7 then VS "false:C07"
       else VS "false:C06"
   | [_; _; _] => VS "false:C06"
